@@ -134,7 +134,7 @@ void body(const Cfg& c) {
             else t.replace(p + 1, 2, "<<");           // " <<de ..." : not well-formed
         } else if (c.f.kind == "truncate") {
             auto starts = c.fmt == "opl" ? line_starts(t) : xml_object_starts(t);
-            t = t.substr(0, starts[c.f.pos]);
+            if (static_cast<size_t>(c.f.pos) < starts.size()) t = t.substr(0, starts[c.f.pos]);     // pos == number of objects: nothing cut off
         }
         g_plan.data = t;
         if (c.f.kind == "read") g_plan.fail_read = c.f.pos;
